@@ -106,10 +106,21 @@ func ZZ_C15_agree(a []int) {
 		for i := 0; i <= term; i++ {
 			ref |= uint32(data[i]&0x7f) << (7 * uint(i))
 		}
-		zzAssert(e1 == nil, "in-memory decoder rejects a terminated 1..4 byte integer")
-		zzAssert(e2 == nil, "streaming decoder rejects a terminated 1..4 byte integer")
-		zzAssert(uint32(v1) == ref, "in-memory decoder value")
-		zzAssert(uint32(v2) == ref, "streaming decoder value")
+		if term == 0 || data[term] != 0 {
+			// the minimal form of ref: both decoders must accept it
+			zzAssert(e1 == nil, "in-memory decoder rejects a terminated 1..4 byte integer")
+			zzAssert(e2 == nil, "streaming decoder rejects a terminated 1..4 byte integer")
+		} else {
+			// a padded (non-minimal) form: MQTT forbids it, a decoder may
+			// accept or reject it - but both decoders alike
+			zzAssert((e1 == nil) == (e2 == nil), "the two decoders disagree on a padded variable byte integer")
+		}
+		if e1 == nil {
+			zzAssert(uint32(v1) == ref, "in-memory decoder value")
+		}
+		if e2 == nil {
+			zzAssert(uint32(v2) == ref, "streaming decoder value")
+		}
 		zzEmitU("v1", uint64(v1))
 		zzEmitU("v2", uint64(v2))
 	} else {
